@@ -361,6 +361,38 @@ func (e *Engine) locKeys(ct *Contract, ex *Expr, out map[string]bool) {
 					return
 				}
 			}
+		case "allmaps", "allelems":
+			if len(ex.Args) == 1 && ex.Args[0].Kind == "field" && ex.Args[0].Args[0].Kind == "ident" {
+				if t, ok := e.resolveTypeName(ct.Pkg, ex.Args[0].Args[0].Name); ok {
+					if s, isStruct := structOf(t); isStruct {
+						for i := 0; i < s.NumFields(); i++ {
+							if s.Field(i).Name() != ex.Args[0].Name {
+								continue
+							}
+							switch ft := s.Field(i).Type().Underlying().(type) {
+							case *types.Map:
+								out[mapKey(ft)+"#dom"] = true
+								out[mapKey(ft)+"#val"] = true
+								return
+							case *types.Slice:
+								heapKeysOfStore(elemMapKey(ft.Elem()), ft.Elem(), out)
+								return
+							}
+						}
+					}
+				}
+			}
+		case "mem":
+			name := ""
+			if ex.Args[0].Kind == "ident" {
+				name = ex.Args[0].Name
+			} else if ex.Args[0].Kind == "field" && ex.Args[0].Args[0].Kind == "ident" {
+				name = ex.Args[0].Args[0].Name + "." + ex.Args[0].Name
+			}
+			if t, ok := e.resolveTypeName(ct.Pkg, name); ok {
+				heapKeysOfStore(memMapKey(t), t, out)
+				return
+			}
 		}
 	}
 	out["*"] = true
@@ -391,7 +423,13 @@ func (e *Engine) lookupMethodSig(ct *Contract) *methodSig {
 	mn := rest[j+2:]
 	obj, ok := pkg.Scope().Lookup(tn).(*types.TypeName)
 	if !ok {
-		return nil
+		// role contract "(Iface_Field).Method": the interface is the part before the last underscore
+		if k := strings.LastIndex(tn, "_"); k > 0 {
+			obj, ok = pkg.Scope().Lookup(tn[:k]).(*types.TypeName)
+		}
+		if !ok {
+			return nil
+		}
 	}
 	var recv types.Type = obj.Type()
 	if strings.HasPrefix(rest[:j], "*") {
